@@ -66,7 +66,8 @@ def work(job):
             out['status'] = 'unsupported:' + str(e)[:200]
             return out
         L.label = job['label'] + ' [' + job['cname'] + ']'
-        m = absm.Machine(comp.post, L.layout, strict_done=L.strict, unsafe_index=comp.cfg['UNSAFE_STRING_INDEXING'])
+        m = absm.Machine(comp.post, L.layout, strict_done=L.strict, unsafe_index=comp.cfg['UNSAFE_STRING_INDEXING'],
+                         free_on_delete=comp.cfg['DELETE_STRING_FREE_MEMORY'] and L.ondemand)
         st = stepcmp.StepStats()
         aspects = job['aspects']
         want = tuple(a for a in ('c06', 'c03', 'c04') if a in aspects)
@@ -94,6 +95,10 @@ def work(job):
                     for f in multicall.c10_state(L, m, sidx, alloc, job.get('L', 2), st):
                         f['sym'] = 'chunk'; finds.append(f)
         if 'c03' in aspects:
+            for n_, bits, cap in L.counter_findings:
+                finds.append({'kind': 'c03-inv', 'what': 'length counter type cannot represent the capacity', 'detail': f'{n_}: {bits}-bit counter for capacity {cap} (wraps: the out-of-space test can never fire)',
+                              'sym': 'start', 'pre': {'state': -1, 'vals': {}, 'strs': {}}})
+            st.d['obligations'] += len(L.layout.cnt); st.d['discharged'] += len(L.layout.cnt) - len(L.counter_findings)
             finds += stepcmp.start_check(L, st)
             finds += stepcmp.free_check(L, st)
             # one-step models start from an arbitrary pre-state: look for an input through the public API that reaches it
@@ -101,11 +106,13 @@ def work(job):
             for f in finds:
                 if f['kind'] not in ('c03-mem', 'c03-inv') or '_cond' not in f:
                     continue
-                k = (f['what'], f['detail'].split(' off=')[0], f['pre']['state'], f['sym'])
+                k = (f['what'], f['detail'].split(' off=')[0], f['pre']['state'], f['sym'], str(sorted((n, sv.get('alloc', True)) for n, sv in f['pre']['strs'].items())))
                 if k not in tried:
                     try:
+                        amask = {n: sv.get('alloc', True) for n, sv in f['pre']['strs'].items()} if L.ondemand else None
                         tried[k] = reach.find_input(m, L.layout, comp.post.states[f['pre']['state']], f['_cond'], f['_data'],
-                                                    maxlen=8 if job['tier'] == 'quick' else 12, max_paths=400 if job['tier'] == 'quick' else 3000)
+                                                    maxlen=8 if job['tier'] == 'quick' else 12, max_paths=400 if job['tier'] == 'quick' else 3000,
+                                                    ondemand=L.ondemand, alloc=amask)
                     except Exception as e:
                         tried[k] = None
                         st.d['cov'].setdefault('reach_errors', []).append(repr(e)[:120])
@@ -190,9 +197,9 @@ def replay_finding(comp, L, m, f):
             return {'reproduced': None, 'note': 'replay build failed: ' + diag[:200]}
         crashed = any(e[0] in ('CRASH', 'TIMEOUT') for e in clog)
         res = {'reproduced': bool(crashed), 'sanitizer': diag[:400] if crashed else '', 'clog': clog[-3:]}
-        if not crashed and f['sym'] in ('byte', 'end') and any(not sv.get('alloc', True) for sv in f['pre']['strs'].values()):
-            # the reach search does not track allocation state: the input reaches the control state and data but not the NULL buffer
-            return {'reproduced': 'unreached', 'note': 'input reaches the control/data state but not the allocation state of the model', 'clog': clog[-2:]}
+        if not crashed and f['kind'] == 'c03-mem' and 'out-of-bounds' not in f['what']:
+            # a fault the sanitizer should see did not happen on the reached input: the model is not confirmed
+            return {'reproduced': 'unreached', 'note': 'the reaching input does not fault under ASan/UBSan', 'clog': clog[-2:]}
         if not crashed and f['kind'] == 'c03-inv':
             # invariant violations are visible in the dumped outputs: re-evaluate on the concrete post-state
             res['reproduced'] = concrete_inv_violation(comp, L, clog, f)
